@@ -219,6 +219,42 @@ def shift_job(tname, kind, k):
                 else: res['inconclusive'].append('shift-lemma violation not reproduced natively: %r' % (o['viol'],))
     return {'name': name, 'path_fn': path_fn, 'post': post, 'timeout': 900}
 
+SEAMS = {'call-open': (b'print(nope', b'\n)\n'), 'paren-open': (b'y := (1', b'\n)\n'), 'after-name': (b'x := 1\ny := x x', b'\nprint(2)\n'), 'arg-list': (b'fn two(a, b) {\n    return a\n}\ntwo(1, 2', b'\n)\n')}
+def trailing_comment_job(sname, k):
+    """a syntax error whose unexpected token is the line break at the seam: a trailing comment in front of that line break (symbolic bytes)
+    leaves the reported position and message as they are"""
+    before, after = SEAMS[sname]
+    name = 'trailing-comment-%s-%d' % (sname, k)
+    def path_fn(M):
+        M.symvars = {}
+        try: bcode, bout, berr = H.run_cli(M, 't.sd', before + after)
+        except Panic as e: raise Unsupported('base panics: %s' % e)
+        berr = H.conc(berr)
+        hole = S.text(M, [b'  #'] + [('sym', 'g%d' % i, S.not_in([10])) for i in range(k)])
+        src = models.elems(before) + hole + models.elems(after)
+        try: code, out, err = H.run_cli(M, 't.sd', src)
+        except Panic as e: return {'panic': str(e)[:200]}
+        r, m = F.sat_model(M.solver)
+        if r != z3.sat: raise PathEnd('infeasible')
+        ep = models.pieces(err); flat = F.eval_pieces(m, ep)
+        wit = bytes(m.eval(e.z(), model_completion=True).as_long() for e in src)
+        obs = {'panic': None, 'viol': None, 'nq': 1, 'wit': list(wit), 'code': code, 'err': flat.decode('latin1'), 'out': F.eval_pieces(m, models.pieces(out)).decode('latin1')}
+        if code != bcode or flat != berr: obs['viol'] = {'what': 'a trailing comment before the offending line break changes the report: %r, without the comment %r' % (flat[:120], berr[:120]), 'wit': list(wit)}
+        return obs
+    def post(rows, res, binary, wd):
+        for r in rows:
+            o = r['obs']
+            if o.get('panic'): res['inconclusive'].append('%s: panic %s' % (name, o['panic'])); continue
+            res['obligations'] += 1; res['discharged'] += 0 if o['viol'] else 1
+            w = bytes(o['wit']); nat = F.native_run(binary, w, wd); res['replayed'] += 1
+            if nat[0] == o['code'] and nat[2] == o['err'].encode('latin1'): res['replay_ok'] += 1
+            else: res['inconclusive'].append('engine/native disagreement on %r: native=%r predicted=%r' % (w, nat, (o['code'], o['err'])))
+            if o['viol']:
+                nb = F.native_run(binary, before + after, wd)
+                if nat[2] != nb[2] or nat[0] != nb[0]: res['violations'].append({'aspect': 'position', 'role': 'trailing-comment:%s' % sname, 'what': o['viol']['what'], 'script': w, 'ext': 'sd'})
+                else: res['inconclusive'].append('trailing-comment violation not reproduced natively: %r' % (o['viol'],))
+    return {'name': name, 'path_fn': path_fn, 'post': post, 'timeout': 900}
+
 CONTEXTS = [
     'print(nope)', 'x := nope', 'x := 1 + nope', 'x := nope + 1', 'x := [1, nope]', 'x := {"k": nope}', 'x := {nope}', 'x := lst[nope]', 'x := nope[0]', 'x := lst[nope:]', 'x := lst[:nope]', 'x := 0 .. nope', 'x := nope .. 2',
     'x := 0 ..   nope', 'x := two(1, nope)', 'x := nope(1)', 'x := nope.k', 'x := obj[nope]', 'if nope {\n    print(1)\n}', 'while nope {\n    print(1)\n}', 'for [i, v] in nope {\n    print(1)\n}', 'x := $"a${nope}"' if False else 'x := [lst.., nope..]',
@@ -231,6 +267,8 @@ CONTEXTS = [
     # chains of one operator: the failing application is not the last one (also continued on the next line)
     'x := 1 + "" + 2', 'x := 9223372036854775807 + 1 + 0', 'x := "a" + 1 +\n    "b" +\n    "c"', 'x := 2 * "" * 3', 'x := 1 - "" - 1 - 1', 'x := true && 1 && false', 'x := 4 / 0 / 1', 'x := [1] + 1 + [2]',
     'x := 9223372036854775807 + 1', 'x := 5 % 0', 'x := 0 .. 1 + ""', 'lst[0] += ""', 'lst[1]   -= ""', 'obj.k -= ""', 'obj["k"]  *= ""', 'lst[0] /= 0', 'obj.k += 9223372036854775807',
+    # a call whose arguments contain calls: still the position of the outer call (also on the stack trace line)
+    'x := two(two(1, 2))', 'x := 1 + two(two(1, 2))', 'print(two(1, 2), 3)', 'x := boom(two(1, 2))', 'x := [0, boom(two(1, two(2, 3)))]', 'x := obj.f(two(1, 2), 3)', 'x := boom(obj.f(1))',
     # call errors: the position of the call expression's first token
     'x := 5()', 'x := two(1)', 'x := 1 + two(1)', 'x := [two()]', 'x := obj.f()', 'x := obj["f"](1, 2)', 'x := lst[0]()', 'x := two(1, 2)(3)', 'x := 0 ..   two(1)', 'print(two(1, two()))',
 ]
@@ -243,7 +281,7 @@ def context_templates():
             out += ['    ' + l for l in code.split('\n')]
         out.append('}')
         return out
-    head = ['s := @h0@', 'lst := [1, 2]', 'obj := {"k": 1, "f": fn (v) {', '    return v', '}}', 'fn two(a, b) {', '    return a', '}']
+    head = ['s := @h0@', 'lst := [1, 2]', 'obj := {"k": 1, "f": fn (v) {', '    return v', '}}', 'fn two(a, b) {', '    return a', '}', 'fn boom(v) {', '    return v + ""', '}']
     n = len(CONTEXTS)
     top = {'name': 'contexts-top', 'src': '\n'.join(head + ladder('s', [c for c in CONTEXTS if not c.startswith('return')]) + ['print(9)']) + '\n', 'assume': lambda v: [v['h0'] >= 0, v['h0'] <= n]}
     infn = {'name': 'contexts-in-fn', 'src': '\n'.join(head + ['fn g(s) {'] + ['    ' + l for l in ladder('s', CONTEXTS)] + ['    return 0', '}', '  print(g(@h1@))']) + '\n', 'assume': lambda v: [v['h1'] >= 0, v['h1'] <= n]}
@@ -277,4 +315,7 @@ def run(tier, seed):
     c.run_jobs('scanner-invariant', sjobs[-1:], par_jobs=1, par_paths=16, timeout=3000)
     c.run_jobs('scanner-invariant', sjobs[:-1], par_jobs=len(sjobs) - 1, par_paths=max(2, 16 // max(1, len(sjobs) - 1)), timeout=3000)
     c.run_jobs('shift-lemma', jobs, par_jobs=8, par_paths=2)
+    tjobs = [trailing_comment_job(s, k) for s in SEAMS for k in ((1, 2) if tier == 'quick' else (1, 2, 3))]
+    c.run_jobs('trailing-comments', tjobs, par_jobs=8, par_paths=2)
+    c.bounds['trailing_comments'] = '%d seams where the unexpected token of a syntax error is a line break, with a trailing comment of 1..%d symbolic bytes in front of it' % (len(SEAMS), 2 if tier == 'quick' else 3)
     return c.finish()
